@@ -361,13 +361,17 @@ CHECK_DEADLOCK FALSE
 
 def record_abandoned(sc):
     from harness.sched_client import ScheduledClient
-    seq = seq_digest({k: v for k, v in sc.items() if k not in ("abandon", "family", "p_ready", "p_run", "sched_seed")})
     cl = ScheduledClient(seed=sc["sched_seed"], p_ready=sc["p_ready"], p_run=sc["p_run"], cores=2)
+    seq = "none"
     try:
-        with time_limit(180):
+        with time_limit(90):
+            seq = seq_digest({k: v for k, v in sc.items() if k not in ("abandon", "family", "p_ready", "p_run", "sched_seed")})
+        with time_limit(90):
             res, _ = run_sampler(dict(sc), cl)
         ev = dict(ev="end", id=-1, left=len(cl.tasks), digest=sample_digest(res, sc["kind"].startswith("smc")), nb=0, obj=0, np=0, nx=0)
     except Exception as ex:
+        if isinstance(ex, Hang):
+            HANGS[0] += 1
         ev = dict(ev="end", id=-1, left=len(cl.tasks), digest="raised:" + type(ex).__name__, nb=-1, obj=-1, np=-1, nx=-1)
     ev.update(bi=-1, ans=False)
     return dict(maxpar=sc["maxpar"], seq=seq, kind=sc["kind"], events=[ev])
@@ -385,8 +389,13 @@ def check_abandoned(ctx, scs=None):
             for (p_ready, p_run) in ((0.0, 0.0), (0.3, 0.5)):
                 scs.append(dict(b, maxpar=3, family="abandoned", p_ready=p_ready, p_run=p_run, sched_seed=rnd.randint(0, 10 ** 6),
                                 abandon=dict(n=rnd.randint(1, 3), n_sim=rnd.randint(8, 20), iters=rnd.randint(1, 3))))
-    traces = [record_abandoned(sc) for sc in scs]
-    vs = ctx.validate("Batches_Trace", traces, name="abandoned")
+    traces = []
+    for sc in scs:
+        if HANGS[0] >= 2:          # the code under test does not terminate: enough evidence, do not burn the time budget
+            break
+        traces.append(record_abandoned(sc))
+    scs = scs[:len(traces)]
+    vs = ctx.validate("Batches_Trace", traces, name="abandoned") if traces else []
     for sc, tr, v in zip(scs, traces, vs):
         ctx.case(("abandoned", sc["kind"], sc["bs"], sc["n"], json.dumps(sc["abandon"]), sc["p_ready"]), nontrivial=True)
         if v["verdict"] != "ok":
